@@ -15,7 +15,7 @@ ENC = ["asynq/batching.py: BatchBase.flush/cancel/_compute/_computed/is_flushed/
 OPS = ["add", "flush", "cancel", "cancel_err", "item0.value", "batch.value", "batch.error", "queries", "str",
        "lastitem.value"]
 PLANS = ["set_all", "skip_first", "set_none", "item_err_first", "raise_exc", "raise_base", "new_item_in_flush",
-         "set_then_raise"]
+         "set_then_raise", "cancel_self_in_flush"]
 
 
 class HB(asynq.BatchBase):
@@ -62,6 +62,10 @@ class HB(asynq.BatchBase):
             elif plan in (4, 5):
                 if i > 0:
                     it.set_value(it.v)
+        if plan == 8:
+            # the flush body (or a callback it fires) cancels the batch it is flushing, then returns normally
+            self.cancel(env["ferr"])
+            return
         if plan in (4, 7):
             raise env["ferr"]
         if plan == 5:
@@ -94,6 +98,8 @@ def expected_item(plan, idx, v, env, how):
         return ("v", v) if idx > 0 else ("e", env["ferr"])
     if plan == 5:
         return ("v", v) if idx > 0 else ("e", env["fbase"])
+    if plan == 8:
+        return ("e", env["ferr"])
     raise AssertionError(plan)
 
 
@@ -150,7 +156,7 @@ def mk(L, debug_batch=False):
                             return rec.fail(desc + ": flush() raised %r for a failing flush body" % (e,))
                         state = "flushed"
                         how = ("flush",)
-                        berr = {4: env["ferr"], 5: env["fbase"], 7: env["ferr"]}.get(pl)
+                        berr = {4: env["ferr"], 5: env["fbase"], 7: env["ferr"], 8: env["ferr"]}.get(pl)
                         if berr is not None:
                             state = "cancelled"
                     else:
@@ -181,7 +187,7 @@ def mk(L, debug_batch=False):
                     if state == "pending":
                         state = "flushed"
                         how = ("flush",)
-                        berr = {4: env["ferr"], 5: env["fbase"], 7: env["ferr"]}.get(pl)
+                        berr = {4: env["ferr"], 5: env["fbase"], 7: env["ferr"], 8: env["ferr"]}.get(pl)
                         if berr is not None:
                             state = "cancelled"
                     exp = expected_item(pl, idx, it.v, env, how)
@@ -196,7 +202,7 @@ def mk(L, debug_batch=False):
                     if state == "pending":
                         state = "flushed"
                         how = ("flush",)
-                        berr = {4: env["ferr"], 5: env["fbase"], 7: env["ferr"]}.get(pl)
+                        berr = {4: env["ferr"], 5: env["fbase"], 7: env["ferr"], 8: env["ferr"]}.get(pl)
                         if berr is not None:
                             state = "cancelled"
                     try:
